@@ -320,8 +320,83 @@ def settle(ctx, pending):
     del pending[:]
 
 
+def run_model_shapefns(ctx):
+    """numpy's index arithmetic for the shape functions is part of the model (Np/Model/ShapeFns.lean, characterised in
+    multi-index terms by the theorems of Np/Proofs/ShapeFns.lean): on a grid of shapes and arguments the model's output
+    shape and gather list must be what the numpy function does to an array of positions. A disagreement is an error of
+    the model (RuntimeError), not a finding about the implementation."""
+    import itertools
+    shapes = [(), (1,), (3,), (2, 3), (3, 1), (2, 1, 3), (2, 2, 2)]
+    reqs, wants = [], []
+
+    def ids(sh, base=0):
+        return (numpy.arange(int(numpy.prod(sh, dtype=int))) + base).reshape(sh)
+
+    def one(req, f, sh):
+        try:
+            out = f(ids(sh))
+        except Exception:  # noqa: BLE001
+            want = None
+        else:
+            out = numpy.asarray(out)
+            want = (list(out.shape), [int(x) for x in out.ravel()])
+        reqs.append(dict(req, op="shapefn", shape=list(sh), id=len(reqs)))
+        wants.append(want)
+
+    def many(req, f, shs):
+        try:
+            out = numpy.asarray(f([ids(sh, 1000 * o) for o, sh in enumerate(shs)]))
+            want = (list(out.shape), [[int(x) // 1000, int(x) % 1000] for x in out.ravel()])
+        except Exception:  # noqa: BLE001
+            want = None
+        reqs.append(dict(req, op="shapefn", shapes=[list(sh) for sh in shs], id=len(reqs)))
+        wants.append(want)
+
+    for sh in shapes:
+        nd = len(sh)
+        for perm in itertools.permutations(range(nd)):
+            one({"fn": "transpose", "perm": list(perm)}, lambda a, perm=perm: numpy.transpose(a, perm), sh)
+        if nd:
+            one({"fn": "transpose", "perm": [0] * nd}, lambda a: numpy.transpose(a, [0] * nd), sh)      # not a permutation
+        for a_, b_ in itertools.product(range(nd + 1), repeat=2):
+            one({"fn": "moveaxis", "src": a_, "dst": b_}, lambda a, a_=a_, b_=b_: numpy.moveaxis(a, a_, b_), sh)
+            one({"fn": "swapaxes", "a": a_, "b": b_}, lambda a, a_=a_, b_=b_: numpy.swapaxes(a, a_, b_), sh)
+        for ax in range(nd + 2):
+            one({"fn": "expand_dims", "axis": ax}, lambda a, ax=ax: numpy.expand_dims(a, ax), sh)
+            for k in (1, 2, 3) if nd else ():       # numpy.repeat treats a 0-d operand as 1-d; repeatF requires axis < ndim
+                one({"fn": "repeat", "k": k, "axis": ax}, lambda a, ax=ax, k=k: numpy.repeat(a, k, axis=ax), sh)
+        for new in [(6,), (3, 2), (1, 6), (2, 3, 1), (1,), (), (3,), (8,), (4, 2), (2, 2, 2), (1, 3)]:
+            one({"fn": "reshape", "newshape": list(new)}, lambda a, new=new: numpy.reshape(a, new), sh)
+        for reps in [(2,), (1, 2), (2, 1, 1), (2, 2), (1,), (3, 1, 1, 1)]:
+            one({"fn": "tile", "reps": list(reps)}, lambda a, reps=reps: numpy.tile(a, reps), sh)
+        for off in (-2, -1, 0, 1, 2):
+            for a1, a2 in itertools.product(range(nd + 1), repeat=2):
+                one({"fn": "diagonal", "offset": off, "ax1": a1, "ax2": a2},
+                    lambda a, off=off, a1=a1, a2=a2: numpy.diagonal(a, off, a1, a2), sh)
+        for ax in range(nd + 2):
+            many({"fn": "stack", "axis": ax}, lambda xs, ax=ax: numpy.stack(xs, axis=ax), [sh])
+            many({"fn": "stack", "axis": ax}, lambda xs, ax=ax: numpy.stack(xs, axis=ax), [sh, sh, sh])
+            many({"fn": "concatenate", "axis": ax}, lambda xs, ax=ax: numpy.concatenate(xs, axis=ax), [sh, sh])
+            if nd and ax < nd:
+                other = tuple(2 * d if i == ax else d for i, d in enumerate(sh))
+                many({"fn": "concatenate", "axis": ax}, lambda xs, ax=ax: numpy.concatenate(xs, axis=ax), [sh, other, sh])
+                bad = tuple(d + 1 for d in sh)
+                many({"fn": "concatenate", "axis": ax}, lambda xs, ax=ax: numpy.concatenate(xs, axis=ax), [sh, bad])
+        many({"fn": "stack", "axis": 0}, lambda xs: numpy.stack(xs, axis=0), [sh, tuple(sh) + (1,)])
+    bad = []
+    for req, want, ans in zip(reqs, wants, run_driver(reqs)):
+        ctx.count("model-shapefn")
+        got = None if ans.get("kind") == "none" else (list(ans["shape"]), [list(x) if isinstance(x, list) else x for x in ans["idx"]])
+        if got != want:
+            bad.append(f"{ {k: v for k, v in req.items() if k not in ('op', 'id')} }: model {str(got)[:120]}, numpy {str(want)[:120]}")
+    if bad:
+        raise RuntimeError(f"Np.ShapeFns and numpy disagree on {len(bad)} of {len(reqs)} cases:\n" + "\n".join(bad[:40]))
+    ctx.extra["model_shapefn_cases"] = len(reqs)
+
+
 def run(ctx):
     ctx.rule = RULE
+    run_model_shapefns(ctx)
     rng = ctx.rng("cases")
     monitor = Monitor()
     F = functions()
